@@ -436,13 +436,13 @@ class Canon(ast.NodeTransformer):
         return node
 
     def visit_FunctionDef(self, node):
-        # at the top level of a function `if c: return` followed by REST (the function then ends) is `if not c: REST`
+        # at the top level of a function a bare `if c: return` followed by REST (the function then ends) is `if not c: REST`
+        # (`return None` in a function that returns values is left alone: rules about what is returned read it)
         node = self.generic_visit(node)
         body = node.body
         for i in range(len(body) - 2, -1, -1):
             s = body[i]
-            if isinstance(s, ast.If) and not s.orelse and len(s.body) == 1 and isinstance(s.body[0], ast.Return) \
-                    and (s.body[0].value is None or (isinstance(s.body[0].value, ast.Constant) and s.body[0].value.value is None)):
+            if isinstance(s, ast.If) and not s.orelse and len(s.body) == 1 and isinstance(s.body[0], ast.Return) and s.body[0].value is None:
                 rest = body[i + 1:]
                 if not rest:
                     continue
